@@ -552,7 +552,8 @@ func (s *w24) oracleMature(op string) {
 			s.fail(sigUnc, detail+fmt.Sprintf(" (the wallet-DB record of this output has ValidHeight %d, the unconfirmed copy %d)", db.ValidHeight, h.ValidHeight))
 		case !ok && len(h.Vote) > 0:
 			s.fail(c25SigStale, detail)
-		case ok && h.ValidHeight == 0 && (e.Type == storage.CoinbaseUTXOType || e.Type == storage.VoteUTXOType):
+		case ok && (h.ValidHeight == 0 || (db != nil && db.ValidHeight == 0)) && (e.Type == storage.CoinbaseUTXOType || e.Type == storage.VoteUTXOType):
+			// restored by a detach (F15); a pool copy of the same output, if any, is no better
 			s.fail(c25SigF15, detail+fmt.Sprintf(" (entry type %d created at %d)", e.Type, e.BlockHeight))
 		case ok && e.Type == storage.VoteUTXOType && consensus.VotePendingBlockNums(e.BlockHeight) != consensus.VotePendingBlockNums(s.height+1):
 			s.fail(c25SigPending, detail+fmt.Sprintf(" (created at %d: pending %d, at spend height pending %d)", e.BlockHeight, consensus.VotePendingBlockNums(e.BlockHeight), consensus.VotePendingBlockNums(s.height+1)))
